@@ -143,6 +143,13 @@ def handle (q : Sx) : String :=
        let s := ptNormSlice st sp step n
        s!"ok {s.start} {s.stop} {s.step} {ptSliceLen s}"
      | _, _, _, _ => "err:parse")
+  | .list [.atom "resynth", a, b, c, n] =>
+    (match a.asInt?, b.asInt?, c.asInt?, n.asInt? with
+     | some st, some sp, some step, some n =>
+       let r := resynthSlice ⟨st, sp, step⟩ n
+       let sh (o : Option Int) : String := match o with | some v => toString v | none => "None"
+       s!"ok {sh r.1} {sh r.2.1} {r.2.2}"
+     | _, _, _, _ => "err:parse")
   | .list [.atom "cpyslice", a, b, c, n] =>
     (match a.asOptInt?, b.asOptInt?, c.asInt?, n.asInt? with
      | some st, some sp, some step, some n =>
